@@ -3,7 +3,7 @@
    BalanceEff / BalanceNginx / BalanceWRand / BalanceLA. *)
 From Coq Require Import List ZArith Bool Lia.
 From HV Require Export Model.Balance Proofs.BalanceBase Proofs.BalanceRR Proofs.BalanceWRR
-  Proofs.BalanceEff Proofs.BalanceNginx Proofs.BalanceWRand Proofs.BalanceLA.
+  Proofs.BalanceEff Proofs.BalanceNginx Proofs.BalanceWRand Proofs.BalanceLA Proofs.BalanceReconf.
 Import ListNotations.
 Open Scope Z_scope.
 
@@ -135,7 +135,8 @@ Lemma la_select_any_state n a r : (1 <= n)%nat ->
 Proof.
   intros Hn. unfold la_select.
   assert (Hl : (n <= length (la_prepare n a))%nat).
-  { unfold la_prepare. destruct (Nat.ltb (length a) n) eqn:E; [rewrite repeat_length; lia|].
+  { unfold la_prepare. destruct (Nat.ltb (length a) n) eqn:E;
+      [apply Nat.ltb_lt in E; rewrite app_length, repeat_length; lia|].
     apply Nat.ltb_ge in E. exact E. }
   destruct (la_candidates_spec n (la_prepare n a) ltac:(lia)) as (cands & Ec & Hne & Hin & _).
   rewrite Ec. cbn [bind]. pose proof (choose_sound cands r Hne) as H.
